@@ -71,6 +71,8 @@ def handle (ss : Session) (line : String) : Session × List String :=
           | "C01" => specC01 ss.st
           | "C02" => specC02 ss.st
           | "C10" => specC10 ss.st
+          | "C03" => specC03 ss.st
+          | "C04" => specC04 ss.st
           | _ => []
         (ss, ("(n " ++ toString fs.length ++ ")") :: fs.map (fun f => f.print))
     | _ =>
